@@ -384,7 +384,7 @@ func runC17Settings(k int, rng *Rng) CaseResult {
 	clockNewCase(clockVirtual)
 	installHooks(stdHooks())
 	w := NewWorld("C17", rng, cfg, caseDir(k, "c17c"))
-	w.storeWant = true
+	w.storeWant = false
 	defer w.Cleanup()
 	if !w.OpenCreate() {
 		return w.finish(nil, false, nil)
@@ -485,7 +485,7 @@ func runC17Switch(k int, rng *Rng) CaseResult {
 	clockNewCase(clockVirtual)
 	installHooks(stdHooks())
 	w := NewWorld("C17", rng, cfg, caseDir(k, "c17w"))
-	w.storeWant = true
+	w.storeWant = false
 	defer w.Cleanup()
 	if !w.OpenCreate() {
 		return w.finish(nil, false, nil)
